@@ -163,8 +163,8 @@ Lemma window_end_bounds sends a w : a <= window_end sends a w /\ window_end send
 Proof.
   unfold window_end.
   assert (G : forall l m, a <= m -> m <= a + w ->
-     a <= fold_left (fun m s => if (a <=? fst s) && (fst s <=? a + w) then N.max m (fst s) else m) l m /\
-     fold_left (fun m s => if (a <=? fst s) && (fst s <=? a + w) then N.max m (fst s) else m) l m <= a + w).
+     a <= fold_left (fun m (s : N * list N) => if (a <=? fst s) && (fst s <=? a + w) then N.max m (fst s) else m) l m /\
+     fold_left (fun m (s : N * list N) => if (a <=? fst s) && (fst s <=? a + w) then N.max m (fst s) else m) l m <= a + w).
   { induction l as [|x l IH]; intros m H1 H2; simpl; [split; assumption|].
     destruct ((a <=? fst x) && (fst x <=? a + w)) eqn:R; apply IH; lia. }
   apply G; lia.
